@@ -31,7 +31,11 @@ Inductive case :=
 | CaseCrash (whitelist : list str) (old : str) (o : op) (limit : nat) (local : option str) (temps : list str)
             (re_m re_wild : list str)
             (* reference run without interruption: memory loaded from `old`, memory after the call *)
-            (old_m old_wild new_m new_wild : list str).
+            (old_m old_wild new_m new_wild : list str)
+  (* same set-up, but the process is not killed: the write that would cross [limit] fails
+     (EFBIG) and persist() takes its error path; the process then exits normally *)
+| CaseIoErr (whitelist : list str) (old : str) (o : op) (limit : nat) (local : option str) (temps : list str)
+            (re_m re_wild : list str) (old_m old_wild new_m new_wild : list str).
 
 (* ---- helpers *)
 Definition subset (a b : list str) : bool := forallb (fun x => mem x b) a.
@@ -199,6 +203,18 @@ Definition check_case (c : case) : bool :=
          match temps with [t] => temp_is_cut lines limit t | _ => false end) &&
       let b := load_initial whitelist [] (match local with Some f => f :: temps | None => temps end) in
       same_set (bm b) re_m && same_set (bwild b) re_wild
+  | CaseIoErr whitelist old o limit local temps re_m re_wild old_m old_wild new_m new_wild =>
+      let b0 := load_initial whitelist [] [old] in
+      let '(_, snapped, b1) := apply_op o b0 in
+      same_set (bm b0) old_m && same_set (bwild b0) old_wild &&
+      same_set (bm b1) new_m && same_set (bwild b1) new_wild &&
+      let total := Datatypes.length (snap_bytes (snapshot_of 1 b1)) in
+      snapped && is_nil temps &&          (* fail(): close, remove the temp file *)
+      (if (total <=? limit)%nat
+       then match local with Some f => file_is_snapshot (bm b1) (bwild b1) f | None => false end
+       else opt_str_eqb local (Some old)) &&
+      let b := load_initial whitelist [] (match local with Some f => [f] | None => [] end) in
+      same_set (bm b) re_m && same_set (bwild b) re_wild
   end.
 
 Definition spec_reply (nr nr6 : N) (qname : str) (qtype : N) (obs : outcome) : bool :=
@@ -250,5 +266,11 @@ Definition spec_case (c : case) : bool :=
       (opt_str_eqb local (Some old) ||
        match local with Some f => file_is_snapshot new_m new_wild f | None => false end) &&
       (* ... and a restart comes back with the previous list or the new one *)
+      (spec_equiv w old_m old_wild re_m re_wild || spec_equiv w new_m new_wild re_m re_wild)
+  | CaseIoErr whitelist old o limit local temps re_m re_wild old_m old_wild new_m new_wild =>
+      (* a failed write must not reach `local`: previous complete file or complete new one *)
+      let w := whitelist_of whitelist in
+      (opt_str_eqb local (Some old) ||
+       match local with Some f => file_is_snapshot new_m new_wild f | None => false end) &&
       (spec_equiv w old_m old_wild re_m re_wild || spec_equiv w new_m new_wild re_m re_wild)
   end.
